@@ -380,6 +380,8 @@ class Mode(LogMixin):
 
         # Clean up the mode handlers and devices
         self._remove_mode_event_handlers()
+        # delays added while the mode was stopping (after stop() cleared them)
+        self.delay.clear()
         self._remove_mode_devices()
 
         for callback in self.stop_callbacks:
